@@ -323,90 +323,6 @@ func checkPolicy(t *core.T, sig string, mk func() *xast.Policy, desc func() stri
 	t.AddTrans(3)
 }
 
-// alternative spellings of the same JSON document: indentation, reversed member order at
-// every level, every member name with its first character as a \uXXXX escape, and the three
-// together. They are the same document to any JSON reader, so they decode to the same policy.
-func jsonSpellings(js []byte) ([]string, error) {
-	dec := json.NewDecoder(bytes.NewReader(js))
-	dec.UseNumber()
-	var v any
-	if err := dec.Decode(&v); err != nil {
-		return nil, err
-	}
-	var render func(v any, rev, esc bool, indent string, sb *strings.Builder)
-	render = func(v any, rev, esc bool, indent string, sb *strings.Builder) {
-		nl, in2 := "", ""
-		if indent != "" {
-			nl, in2 = "\n"+indent, indent+"\t"
-		}
-		switch x := v.(type) {
-		case map[string]any:
-			keys := make([]string, 0, len(x))
-			for k := range x {
-				keys = append(keys, k)
-			}
-			sort.Strings(keys)
-			if rev {
-				for i, j := 0, len(keys)-1; i < j; i, j = i+1, j-1 {
-					keys[i], keys[j] = keys[j], keys[i]
-				}
-			}
-			sb.WriteString("{")
-			for i, k := range keys {
-				if i > 0 {
-					sb.WriteString(",")
-				}
-				if indent != "" {
-					sb.WriteString("\n" + in2)
-				}
-				kb, _ := json.Marshal(k)
-				ks := string(kb)
-				if esc && len(k) > 0 && k[0] < 0x80 {
-					rest, _ := json.Marshal(k[1:])
-					ks = fmt.Sprintf("\"\\u%04x%s", k[0], rest[1:])
-				}
-				sb.WriteString(ks + ":")
-				if indent != "" {
-					sb.WriteString(" ")
-				}
-				render(x[k], rev, esc, in2, sb)
-			}
-			sb.WriteString(nl + "}")
-		case []any:
-			sb.WriteString("[")
-			for i, e := range x {
-				if i > 0 {
-					sb.WriteString(",")
-				}
-				if indent != "" {
-					sb.WriteString("\n" + in2)
-				}
-				render(e, rev, esc, in2, sb)
-			}
-			sb.WriteString(nl + "]")
-		default:
-			b, _ := json.Marshal(x)
-			sb.Write(b)
-		}
-	}
-	var out []string
-	for _, c := range []struct {
-		rev, esc bool
-		indent   string
-	}{{false, false, "\t"}, {true, false, ""}, {false, true, ""}, {true, true, " "}} {
-		var sb strings.Builder
-		if c.indent == " " {
-			sb.WriteString(" \n\t")
-		}
-		render(v, c.rev, c.esc, c.indent, &sb)
-		if c.indent != "" {
-			sb.WriteString("\n")
-		}
-		out = append(out, sb.String())
-	}
-	return out, nil
-}
-
 func checkSpellings(t *core.T, sig string, mk func() *xast.Policy) {
 	orig := cedar.NewPolicyFromAST((*publicast.Policy)(mk()))
 	js, err := orig.MarshalJSON()
@@ -418,7 +334,7 @@ func checkSpellings(t *core.T, sig string, mk func() *xast.Policy) {
 		return
 	}
 	want := Canon((*xast.Policy)(base.AST()))
-	alts, err := jsonSpellings(js)
+	alts, err := core.JSONSpellings(js)
 	if err != nil {
 		t.Fail("harness-json-spelling", string(js), "valid JSON", err.Error())
 		return
